@@ -801,6 +801,8 @@ func runReal(c *Case) (g Got, then *Got, harness error) {
 	// a diff of its own for the caller to write into: an element appended to every old / new
 	// list of it (the lists are the caller's) must not reach the datasource or the next call
 	if _, dx := invoke(change, ds, opts); dx != nil {
+		// (and an action of the caller's own appended to the diff itself)
+		extra := osm.Action{Type: osm.ActionCreate, OSM: &osm.OSM{Nodes: osm.Nodes{{ID: -8, Version: 1, Visible: true}}}}
 		for i := range dx.Actions {
 			for _, o := range []*osm.OSM{dx.Actions[i].Old, dx.Actions[i].New} {
 				if o == nil {
@@ -817,6 +819,7 @@ func runReal(c *Case) (g Got, then *Got, harness error) {
 				}
 			}
 		}
+		dx.Actions = append(dx.Actions, extra)
 		if !reflect.DeepEqual(before, change) {
 			g.InputModified = true
 		}
